@@ -104,9 +104,12 @@ def main():
         base = [exe, '--tier', tier, '--seed', str(seed)] + d.get('args', [])
         # determinism self-test: the same sampled cases in two separate processes
         stride = d.get('obs_stride', {}).get(tier, 97)
-        o1 = sh(base + ['--obs-sample', '40', '--obs-stride', str(stride)], env=env, cwd=VERIF)
-        o2 = sh(base + ['--obs-sample', '40', '--obs-stride', str(stride)], env=env, cwd=VERIF)
-        l1 = [l for l in o1.stdout.splitlines() if l.startswith('OBS ')]
+        for st in (stride, 7, 1):
+            o1 = sh(base + ['--obs-sample', '40', '--obs-stride', str(st)], env=env, cwd=VERIF)
+            l1 = [l for l in o1.stdout.splitlines() if l.startswith('OBS ')]
+            if len(l1) >= 3 or st == 1:
+                break
+        o2 = sh(base + ['--obs-sample', '40', '--obs-stride', str(st)], env=env, cwd=VERIF)
         l2 = [l for l in o2.stdout.splitlines() if l.startswith('OBS ')]
         if l1 != l2 or not l1:
             log.write(o1.stdout + '\n----\n' + o2.stdout)
